@@ -1,4 +1,5 @@
 """C16 — Expressions are hash-consed and constructors normalise as documented."""
+import operator
 import warnings
 from fractions import Fraction
 
@@ -12,12 +13,17 @@ from unified_planning.model.operators import OperatorKind as OK
 ID = "C16"
 GEN = []
 CORR_NAME = "construction-history"
-RULE = ("histories of well-typed ExpressionManager calls (And/Or/XOr/Not/Implies/Iff/Exists/Forall/trajectory operators/"
+RULE = ("histories of well-typed constructions (And/Or/XOr/Not/Implies/Iff/Exists/Forall/trajectory operators/"
         "Plus/Minus/Times/Div/LE/GE/LT/GT/Equals/FluentExp/ParameterExp/VariableExp/ObjectExp/Bool/Int/Real) in ONE fresh "
         "environment; arguments are results of earlier steps, Python literals (bool, int, Fraction, float, numeric str) or "
-        "Fluent/Parameter/Variable/Object objects (two equal-but-distinct Python copies of each); ~30% of the steps repeat an "
-        "earlier construction verbatim or through its documented normal form (GE a b / LE b a, Not(Not x), And(x), Plus(), "
-        "2 / 2.0 / '4/2' / Fraction(4,2) ...); ~4% raise a documented error (arity, no quantified variable, non-numeric "
+        "Fluent/Parameter/Variable/Object objects (two equal-but-distinct Python copies of each); EVERY step carries the PATH by "
+        "which it is built, drawn from the rng among all public spellings of that construction: the ExpressionManager method, the "
+        "unified_planning.shortcuts function, the Python infix/prefix operator (~ & | ^ + - * / // < <= > >= with the up object on "
+        "either side, i.e. forward and reflected methods, and the mirrored comparison l <= r / r >= l), the dunder or named method "
+        "of the receiver called by name (FNode, Fluent, Parameter, Variable: __add__ __radd__ ... And Or Not Xor Implies Iff "
+        "Equals; Object.Equals), Fluent.__call__; ~30% of the steps repeat an earlier construction (re-spelled at random) or "
+        "reach it through its documented normal form (GE a b / LE b a, Not(Not x) with both negations on random paths, And(x), "
+        "Plus(), 2 / 2.0 / '4/2' / Fraction(4,2) ...); ~4% raise a documented error (arity, no quantified variable, non-numeric "
         "string, Int of a bool). A history is non-trivial if some step returns a node that already existed AND some normalising "
         "constructor branch fired.")
 ASSUMPTIONS = [
@@ -31,12 +37,24 @@ ASSUMPTIONS = [
     "Int(True)/Int(False) are rejected with UPTypeError (repaired code, notes/patches/C16-int-rejects-bool.patch): as found, "
     "Int(True) was memoized with the payload True under the key of Int(1) and every later literal 1 printed as 'True'",
     "Dot, TimingExp, PresentExp, InterpretedFunctionExp and EqualsOrIff are not modelled",
+    "the infix helpers without documentation are read from their code: -x is Minus(0, x), +x is Plus(0, x), and x.Xor(*ys) / "
+    "x ^ y is And(Or(x, *ys), Not(And(x, *ys))) built with the normalising constructors -- NOT the expression of "
+    "ExpressionManager.XOr (for three or more operands the two even differ in meaning: 'not all equal' vs 'exactly one'); "
+    "the property does not name XOr, so identity between the two is not demanded (reported)",
+    "l ^ r with a Python bool on the left (__rxor__) follows the repaired code (notes/patches/C16-rxor-star-other.patch): as "
+    "found, `True ^ x` raised TypeError because __rxor__(self, other) unpacks `*other`",
+    "a list operand is only used on the right of a forward operator / as an argument of a named method (CPython's sequence "
+    "protocol for `[x] + a` is not modelled)",
     "constants beyond float range are kept away from unbounded operands and from Div (the type checker's float bounds "
     "arithmetic raises OverflowError there, DESIGN D-C15c)",
 ]
 MODELLED = ["modelled by hand (tied by correspondence): ExpressionManager.create_node/auto_promote/constructors, "
-            "uniform_numeric_constant, FNodeContent equality; modelled not verified: CPython dict/tuple/namedtuple hashing and "
-            "equality, fractions.Fraction parsing and normalisation, float.as_integer_ratio, object identity"]
+            "uniform_numeric_constant, FNodeContent equality, the infix tables of FNode/Fluent/Parameter/Variable/Object, "
+            "Fluent.__call__, the expression helpers of unified_planning.shortcuts; modelled not verified: CPython dict/tuple/"
+            "namedtuple hashing and equality, fractions.Fraction parsing and normalisation, float.as_integer_ratio, object "
+            "identity, CPython's forward/reflected dispatch of binary operators (bool/int/float/Fraction/str return "
+            "NotImplemented for a foreign right operand)"]
+EXTRA_PROPS = ["UPVerif.Props.C16Paths"]
 BUDGET_S = {"quick": 40, "thorough": 400}
 
 # --------------------------------------------------------------------------------------------------
@@ -50,7 +68,8 @@ FLUENTS = {
     "x@bool": ("x", "bool", ()), "x@int": ("x", "int010", ()),
 }
 PARAMS = {"pl": ("pl", "Loc"), "pb": ("pb", "bool"), "pi": ("pi", "int010"), "x@P": ("x", "Loc")}
-VARS = {"vl": ("vl", "Loc"), "vm": ("vm", "Loc"), "vr": ("vr", "Robot")}
+VARS = {"vl": ("vl", "Loc"), "vm": ("vm", "Loc"), "vr": ("vr", "Robot"), "vb": ("vb", "bool"), "vi": ("vi", "int010")}
+QVARS = ["vl", "vm", "vr"]          # the variables quantified over by Exists / Forall
 OBJS = {"o1": ("o1", "Loc"), "o2": ("o2", "Loc"), "o3": ("o3", "Loc"), "rob": ("rob", "Robot")}
 # result type of a symbol expression as tracked by the generator: (base, unbounded?)
 BASE = {"bool": "bool", "int": "int", "int010": "int", "real": "real", "real010": "real", "Loc": "Loc", "Robot": "Robot"}
@@ -133,33 +152,72 @@ def py_parg(pool, results, p):
     return py_arg(pool, results, p)
 
 
-def call(pool, results, cmd):
-    """one construction on the real ExpressionManager"""
-    em, name = pool.em, cmd[0]
+def ctor_call(target, pool, results, cmd):
+    """one constructor call; `target` is the real ExpressionManager or the unified_planning.shortcuts module"""
+    name = cmd[0]
     if name == "TRUE":
-        return em.TRUE()
+        return target.TRUE()
     if name == "FALSE":
-        return em.FALSE()
+        return target.FALSE()
     if name == "Bool":
-        return em.Bool(cmd[1] == "T")
+        return target.Bool(cmd[1] == "T")
     if name == "Int":
-        return em.Int(int(cmd[1]))
+        return target.Int(int(cmd[1]))
     if name == "IntOfBool":
-        return em.Int(cmd[1] == "T")
+        return target.Int(cmd[1] == "T")
     if name == "Real":
-        return em.Real(Fraction(int(cmd[1]), int(cmd[2])))
+        return target.Real(Fraction(int(cmd[1]), int(cmd[2])))
     if name == "ParameterExp":
-        return em.ParameterExp(pool.obj[("P", cmd[1], int(cmd[2]))])
+        return target.ParameterExp(pool.obj[("P", cmd[1], int(cmd[2]))])
     if name == "VariableExp":
-        return em.VariableExp(pool.obj[("V", cmd[1], int(cmd[2]))])
+        return target.VariableExp(pool.obj[("V", cmd[1], int(cmd[2]))])
     if name == "ObjectExp":
-        return em.ObjectExp(pool.obj[("O", cmd[1], int(cmd[2]))])
+        return target.ObjectExp(pool.obj[("O", cmd[1], int(cmd[2]))])
     if name == "FluentExp":
-        return em.FluentExp(pool.obj[("F", cmd[1], int(cmd[3]))], py_parg(pool, results, cmd[4]))
+        return target.FluentExp(pool.obj[("F", cmd[1], int(cmd[3]))], py_parg(pool, results, cmd[4]))
     if name in ("Exists", "Forall"):
         vs = [pool.obj[("V", v[0], int(v[1]))] for v in cmd[1]]
-        return getattr(em, name)(py_parg(pool, results, cmd[2]), *vs)
-    return getattr(em, name)(*[py_parg(pool, results, p) for p in cmd[1:]])
+        return getattr(target, name)(py_parg(pool, results, cmd[2]), *vs)
+    if name not in CTOR_NAMES:
+        raise RuntimeError("bad command " + repr(cmd))
+    return getattr(target, name)(*[py_parg(pool, results, p) for p in cmd[1:]])
+
+
+CTOR_NAMES = {"And", "Or", "XOr", "Not", "Implies", "Iff", "Always", "Sometime", "AtMostOnce", "SometimeBefore",
+              "SometimeAfter", "Plus", "Minus", "Times", "Div", "LE", "GE", "LT", "GT", "Equals"}
+INFIX = {"add": operator.add, "sub": operator.sub, "mul": operator.mul, "truediv": operator.truediv,
+         "floordiv": operator.floordiv, "lt": operator.lt, "le": operator.le, "gt": operator.gt, "ge": operator.ge,
+         "and": operator.and_, "or": operator.or_, "xor": operator.xor}          # operator.add(l, r) IS `l + r`
+UNARY = {"invert": operator.invert, "neg": operator.neg, "pos": operator.pos}
+METHODS = {"__add__", "__radd__", "__sub__", "__rsub__", "__mul__", "__rmul__", "__truediv__", "__rtruediv__",
+           "__floordiv__", "__rfloordiv__", "__gt__", "__ge__", "__lt__", "__le__", "__pos__", "__neg__", "Equals",
+           "And", "__and__", "__rand__", "Or", "__or__", "__ror__", "Not", "__invert__", "Xor", "__xor__", "__rxor__",
+           "Implies", "Iff"}
+
+
+def call(pool, results, cmd):
+    """one construction on the real code, by the path the command names"""
+    name = cmd[0]
+    if name == "sc":                 # unified_planning.shortcuts.<Ctor>: works on the GLOBAL environment
+        import unified_planning.environment as E
+        import unified_planning.shortcuts as S
+        saved = E.GLOBAL_ENVIRONMENT
+        E.GLOBAL_ENVIRONMENT = pool.env
+        try:
+            return ctor_call(S, pool, results, cmd[1])
+        finally:
+            E.GLOBAL_ENVIRONMENT = saved
+    if name == "op":                 # the Python operator itself, CPython chooses forward / reflected method
+        return INFIX[cmd[1]](py_parg(pool, results, cmd[2]), py_parg(pool, results, cmd[3]))
+    if name == "un":
+        return UNARY[cmd[1]](py_parg(pool, results, cmd[2]))
+    if name == "m":                  # a method of the receiver called by name
+        if cmd[1] not in METHODS:
+            raise RuntimeError("bad method " + repr(cmd))
+        return getattr(py_arg(pool, results, cmd[2]), cmd[1])(*[py_parg(pool, results, p) for p in cmd[3:]])
+    if name == "call":               # Fluent.__call__
+        return pool.obj[("F", cmd[1], int(cmd[3]))](*[py_arg(pool, results, a) for a in cmd[4:]])
+    return ctor_call(pool.em, pool, results, cmd)
 
 
 def err_code(e):
@@ -171,7 +229,11 @@ def err_code(e):
         return "zero-div"
     if isinstance(e, UPTypeError):
         return "type"
-    return "other:" + type(e).__name__
+    return "other:" + type(e).__name__      # TypeError / AttributeError out of a public path: never a documented error
+
+
+LIB_ERRORS = (UPExpressionDefinitionError, UPValueError, ZeroDivisionError, UPTypeError, OverflowError, AssertionError,
+              TypeError, AttributeError)
 
 
 def payload_out(pool, n):
@@ -196,7 +258,7 @@ def run_history(payload):
     for cmd in payload[1:]:
         try:
             r = call(pool, results, cmd)
-        except (UPExpressionDefinitionError, UPValueError, ZeroDivisionError, UPTypeError, OverflowError, AssertionError) as e:
+        except LIB_ERRORS as e:
             r = ("err", err_code(e))
         results.append(r)
         if isinstance(r, up.model.FNode):
@@ -294,9 +356,80 @@ PLAIN = {"Implies": "IMPLIES", "Iff": "IFF", "Minus": "MINUS", "Div": "DIV", "LE
          "SometimeBefore": "SOMETIME_BEFORE", "SometimeAfter": "SOMETIME_AFTER"}
 
 
+INT0 = ("INT_CONSTANT", ("int", 0), ())
+
+
+def spec_xor_infix(xs):
+    """x.Xor(*ys) / x ^ y, as the code of the infix tables spells it: (x | ys...) & ~(x & ys...)"""
+    return spec_nary("AND", BOOLT(True), [spec_nary("OR", BOOLT(False), xs), spec_not(spec_nary("AND", BOOLT(True), xs))])
+
+
+def spec_operator(opn, l, r):
+    """the expression `l <opn> r` denotes; l, r = lists of argument expressions (a list operand counts for its elements)"""
+    xs = l + r
+    if opn == "add":
+        return spec_nary("PLUS", INT0, xs)
+    if opn == "mul":
+        return spec_nary("TIMES", ("INT_CONSTANT", ("int", 1), ()), xs)
+    if opn == "and":
+        return spec_nary("AND", BOOLT(True), xs)
+    if opn == "or":
+        return spec_nary("OR", BOOLT(False), xs)
+    if opn == "xor":
+        return spec_xor_infix(xs)
+    a, b = xs                                   # the remaining operators are binary
+    if opn == "sub":
+        return ("MINUS", NONE, (a, b))
+    if opn in ("truediv", "floordiv"):          # both spell the division
+        return ("DIV", NONE, (a, b))
+    if opn == "lt":
+        return ("LT", NONE, (a, b))
+    if opn == "le":
+        return ("LE", NONE, (a, b))
+    if opn == "gt":                             # documented: a > b is b < a
+        return ("LT", NONE, (b, a))
+    if opn == "ge":
+        return ("LE", NONE, (b, a))
+    raise RuntimeError("bad operator " + opn)
+
+
+FORWARD = {"__add__": "add", "__sub__": "sub", "__mul__": "mul", "__truediv__": "truediv", "__floordiv__": "floordiv",
+           "__lt__": "lt", "__le__": "le", "__gt__": "gt", "__ge__": "ge", "__and__": "and", "And": "and",
+           "__or__": "or", "Or": "or", "__xor__": "xor", "Xor": "xor"}
+REFLECTED = {"__radd__": "add", "__rsub__": "sub", "__rmul__": "mul", "__rtruediv__": "truediv",
+             "__rfloordiv__": "floordiv", "__rand__": "and", "__ror__": "or", "__rxor__": "xor"}
+
+
 def expected(pool, results, memo, cmd):
-    """the expression the documentation promises for this call, given the expressions of its arguments"""
+    """the expression the documentation promises for this construction, given the expressions of its arguments --
+       whatever the path: x + y is Plus(x, y), ~x is Not(x), shortcuts.F is ExpressionManager.F, f(a) is FluentExp(f, [a])"""
     name = cmd[0]
+    if name == "sc":
+        return expected(pool, results, memo, cmd[1])
+    if name == "op":
+        return spec_operator(cmd[1], arg_trees(pool, results, memo, [cmd[2]]), arg_trees(pool, results, memo, [cmd[3]]))
+    if name == "un":
+        (x,) = arg_trees(pool, results, memo, [cmd[2]])
+        if cmd[1] == "invert":
+            return spec_not(x)
+        return ("MINUS", NONE, (INT0, x)) if cmd[1] == "neg" else spec_nary("PLUS", INT0, [INT0, x])
+    if name == "m":
+        me = arg_trees(pool, results, memo, [cmd[2]])
+        others = arg_trees(pool, results, memo, cmd[3:])
+        f = cmd[1]
+        if f in FORWARD:
+            return spec_operator(FORWARD[f], me, others)
+        if f in REFLECTED:
+            return spec_operator(REFLECTED[f], others, me)
+        if f in ("Not", "__invert__"):
+            return spec_not(me[0])
+        if f == "__neg__":
+            return ("MINUS", NONE, (INT0, me[0]))
+        if f == "__pos__":
+            return spec_nary("PLUS", INT0, [INT0, me[0]])
+        return ({"Equals": "EQUALS", "Implies": "IMPLIES", "Iff": "IFF"}[f], NONE, (me[0], others[0]))
+    if name == "call":
+        return ("FLUENT_EXP", ("sym", cmd[1]), tuple(arg_trees(pool, results, memo, cmd[4:])))
     if name in ("TRUE", "FALSE"):
         return BOOLT(name == "TRUE")
     if name == "Bool":
@@ -369,11 +502,13 @@ def oracle(payload):
                 return None     # raised by the type checker's bounds arithmetic: outside the quantifier
             r = ("err", err_code(e))
         except UPTypeError as e:
-            if cmd[0] != "IntOfBool":
+            if base_name(cmd) != "IntOfBool":
                 return None     # outside the quantifier (ill-typed construction): nothing is claimed
             r = ("err", "type")
         except (OverflowError, AssertionError) as e:
             return None
+        except (TypeError, AttributeError) as e:
+            return f"step {k}: the public construction path {path_name(cmd)} raised {type(e).__name__}: {e}"
         results.append(r)
         see_all()
         if isinstance(r, up.model.FNode):
@@ -383,9 +518,14 @@ def oracle(payload):
                 return f"step {k}: returned node is not registered in the environment's table"
             got = struct(pool, r, memo)
             if got != want:
-                return f"step {k}: {cmd[0]} did not build the documented expression: got {short(got)}, documented {short(want)}"
+                return (f"step {k}: {path_name(cmd)} did not build the documented expression: got {short(got)}, "
+                        f"documented {short(want)}")
     # hash-consing over the whole table
     nodes = [n for n, _ in first_read.values()]
+    # every node was made by a constructor that normalises double negation: none is Not(Not(x))
+    for n in nodes:
+        if n.node_type == OK.NOT and n.args[0].node_type == OK.NOT:
+            return f"an un-normalised node Not(Not(x)) is registered in the environment: {short(struct(pool, n, memo))}"
     by_struct, by_id = {}, {}
     for n in nodes:
         s = struct(pool, n, memo)
@@ -415,11 +555,13 @@ def oracle(payload):
         except (UPExpressionDefinitionError, UPValueError, ZeroDivisionError) as e:
             r = ("err", err_code(e))
         except UPTypeError:
-            if cmd[0] != "IntOfBool":
+            if base_name(cmd) != "IntOfBool":
                 return None
             r = ("err", "type")
         except (OverflowError, AssertionError):
             return None
+        except (TypeError, AttributeError) as e:
+            return f"step {k}: the public construction path {path_name(cmd)} raised {type(e).__name__}: {e}"
         first = results[k]
         if isinstance(first, up.model.FNode) != isinstance(r, up.model.FNode) or \
                 (isinstance(r, up.model.FNode) and r is not first) or (not isinstance(r, up.model.FNode) and r != first):
@@ -430,6 +572,22 @@ def oracle(payload):
         if read_node(pool, n) != rd:
             return f"node {rd[0]} changed after creation"
     return None
+
+
+def base_name(cmd):
+    return base_name(cmd[1]) if cmd[0] == "sc" else cmd[0]
+
+
+def path_name(cmd):
+    if cmd[0] == "sc":
+        return "shortcuts." + cmd[1][0]
+    if cmd[0] in ("op", "un"):
+        return "operator " + cmd[1]
+    if cmd[0] == "m":
+        return {"r": "FNode", "F": "Fluent", "P": "Parameter", "V": "Variable", "O": "Object"}.get(cmd[2][0], "?") + "." + cmd[1]
+    if cmd[0] == "call":
+        return "Fluent.__call__"
+    return "ExpressionManager." + cmd[0]
 
 
 def short(t, depth=0):
@@ -471,14 +629,214 @@ class G:
     """generator state: for every step the tracked type of its result (None for a failing step):
        base in bool/int/real/Loc/Robot; unb = no bounds; mag = see above; const = built from constants only"""
 
-    def __init__(self, rng):
+    def __init__(self, rng, paths=True):
         self.rng = rng
-        self.cmds = []
+        self.cmds = []          # what is executed: every construction with the path by which it is made
+        self.forms = []         # the same constructions as ExpressionManager calls (what repeat() re-spells)
         self.ty = []
+        self.paths = paths
+        self.symsteps = []      # steps that returned the expression of a 0-ary fluent / a parameter / a variable
 
-    def emit(self, cmd, info):
-        self.cmds.append(cmd)
+    def emit(self, cmd, info, spelled=None):
+        """`cmd`: the construction as an ExpressionManager call; `spelled`: the path to take (default: drawn at random)"""
+        self.forms.append(cmd)
+        self.cmds.append(spelled if spelled is not None else (self.respell(cmd) if self.paths else cmd))
         self.ty.append(info)
+        if info is not None and ((cmd[0] == "FluentExp" and cmd[2] == "0") or cmd[0] in ("ParameterExp", "VariableExp")):
+            self.symsteps.append(len(self.cmds) - 1)
+
+    # ---- construction paths ----
+    def spellings_of(self, cmd):
+        """every public spelling of the ExpressionManager call `cmd` (same arguments, same documented expression)"""
+        name, args = cmd[0], cmd[1:]
+        one = lambda a: a[0] != "L"                              # a single expression, not an iterable
+        upo = lambda a: a[0] in ("r", "F", "P", "V")             # instance of a class carrying the infix table
+        lit = lambda a: a[0] in ("b", "i", "q", "f", "s")        # Python constant: its class defers to the right operand
+        out = [["sc", cmd]] if name != "IntOfBool" else []
+
+        def binary(opn, fwd, rfl, l, r):
+            if upo(l):
+                out.append(["op", opn, l, r])                    # l.__op__(r)
+                out.append(["m", fwd, l, r])
+            if upo(r) and one(l) and rfl is not None:
+                out.append(["m", rfl, r, l])                     # r.__rop__(l)
+                if lit(l):
+                    out.append(["op", opn, l, r])                # CPython falls back to r.__rop__(l)
+
+        if name == "Not" and len(args) == 1 and upo(args[0]):
+            out += [["un", "invert", args[0]], ["m", "Not", args[0]], ["m", "__invert__", args[0]]]
+        elif name in ("And", "Or", "Plus", "Times") and args and upo(args[0]):
+            named, opn = {"And": ("And", "and"), "Or": ("Or", "or"), "Plus": (None, "add"), "Times": (None, "mul")}[name]
+            if named:
+                out.append(["m", named] + args)                  # x.And(*others): any number, lists allowed
+            if len(args) == 2:
+                binary(opn, "__%s__" % opn, "__r%s__" % opn, args[0], args[1])
+        elif name in ("And", "Or", "Plus", "Times") and len(args) == 2 and one(args[0]):
+            opn = {"And": "and", "Or": "or", "Plus": "add", "Times": "mul"}[name]
+            binary(opn, "__%s__" % opn, "__r%s__" % opn, args[0], args[1])
+        elif name in ("Minus", "Div") and len(args) == 2 and one(args[0]) and one(args[1]):
+            for opn in (["sub"] if name == "Minus" else ["truediv", "floordiv"]):
+                binary(opn, "__%s__" % opn, "__r%s__" % opn, args[0], args[1])
+        elif name in ("LE", "LT", "GE", "GT") and len(args) == 2 and one(args[0]) and one(args[1]):
+            opn = name.lower()
+            mir = {"le": "ge", "lt": "gt", "ge": "le", "gt": "lt"}[opn]
+            binary(opn, "__%s__" % opn, "__%s__" % mir, args[0], args[1])       # l <= r  /  r.__ge__(l)
+            binary(mir, "__%s__" % mir, "__%s__" % opn, args[1], args[0])       # r >= l  /  l.__le__(r)
+        elif name in ("Equals", "Implies", "Iff") and len(args) == 2 and one(args[1]) and \
+                (upo(args[0]) or (name == "Equals" and args[0][0] == "O")):
+            out.append(["m", name, args[0], args[1]])
+        elif name == "FluentExp" and all(one(a) for a in cmd[4][1:]):
+            out.append(["call", cmd[1], cmd[2], cmd[3]] + cmd[4][1:])
+        if name == "Plus" and len(args) == 2 and args[0] == ["i", "0"] and upo(args[1]):
+            out += [["un", "pos", args[1]], ["m", "__pos__", args[1]]] * 2
+        if name == "Minus" and len(args) == 2 and args[0] == ["i", "0"] and upo(args[1]):
+            out += [["un", "neg", args[1]], ["m", "__neg__", args[1]]] * 2
+        return out
+
+    def respell(self, cmd):
+        r = self.rng.random()
+        if r < 0.3:
+            return cmd                                           # the ExpressionManager method itself
+        alts = self.spellings_of(cmd)
+        others = [a for a in alts if a[0] != "sc"]
+        if others and r < 0.85:
+            return self.rng.choice(others)                       # operator / method / call
+        if len(alts) > len(others) and self.rng.random() < 0.6:
+            return alts[0]                                       # the shortcuts function
+        return cmd
+
+    def up_arg(self, want):
+        """an argument that is an FNode or a Fluent/Parameter/Variable object (something that has operators)"""
+        for _ in range(200):
+            a, t = self.arg(want)
+            if a[0] in ("r", "F", "P", "V"):
+                return a, t
+        raise RuntimeError("generator could not find a receiver")
+
+    def receiver(self, cls, base, any_result=False):
+        """a receiver of class `cls` (r = FNode, F, P, V) whose expression has base type `base`; for FNode: the expression of a
+           symbol (so that its bounds are those of the symbol), or with any_result any earlier result of that type"""
+        rng = self.rng
+        if cls != "r":
+            return self.sym(cls, base)
+        if any_result and rng.random() < 0.6:
+            k = self.prev(lambda t: t["base"] == base)
+            if k is not None:
+                return ["r", str(k)], self.ty[k]
+        ks = [k for k in self.symsteps if self.ty[k]["base"] == base]
+        if not ks or rng.random() < 0.3:
+            got = self.sym(rng.choice("FPV"), base) or self.sym("F", base)
+            a, t = got
+            if a[0] == "F":
+                self.emit(["FluentExp", a[1], "0", a[3], ["L"]], t)
+            else:
+                self.emit([{"P": "ParameterExp", "V": "VariableExp"}[a[0]], a[1], a[2]], t)
+            ks = [len(self.cmds) - 1]
+        k = rng.choice(ks)
+        return ["r", str(k)], self.ty[k]
+
+    def small_num(self, nonzero=False):
+        """a numeric operand that keeps every bound small and exact: a small literal or a symbol"""
+        if self.rng.random() < 0.6:
+            return self.num_lit(60, nonzero=nonzero)
+        return self.num_sym()
+
+    SWEEP = [   # method, ExpressionManager constructor, position of the receiver, family
+        ("__add__", "Plus", 0, "num"), ("__radd__", "Plus", 1, "num"), ("__sub__", "Minus", 0, "num"),
+        ("__rsub__", "Minus", 1, "num"), ("__mul__", "Times", 0, "num"), ("__rmul__", "Times", 1, "num"),
+        ("__truediv__", "Div", 0, "num"), ("__rtruediv__", "Div", 1, "num"), ("__floordiv__", "Div", 0, "num"),
+        ("__rfloordiv__", "Div", 1, "num"), ("__lt__", "LT", 0, "num"), ("__le__", "LE", 0, "num"), ("__gt__", "GT", 0, "num"),
+        ("__ge__", "GE", 0, "num"), ("Equals", "Equals", 0, "num"), ("__pos__", "Plus", 1, "sign"), ("__neg__", "Minus", 1, "sign"),
+        ("And", "And", 0, "nary"), ("__and__", "And", 0, "bool"), ("__rand__", "And", 1, "bool"), ("Or", "Or", 0, "nary"),
+        ("__or__", "Or", 0, "bool"), ("__ror__", "Or", 1, "bool"), ("Not", "Not", 0, "not"), ("__invert__", "Not", 0, "not"),
+        ("Implies", "Implies", 0, "bool"), ("Iff", "Iff", 0, "bool"), ("Xor", None, 0, "xor"), ("__xor__", None, 0, "xor"),
+        ("__rxor__", None, 1, "xor")]
+    OPSYM = {"__add__": "add", "__radd__": "add", "__sub__": "sub", "__rsub__": "sub", "__mul__": "mul", "__rmul__": "mul",
+             "__truediv__": "truediv", "__rtruediv__": "truediv", "__floordiv__": "floordiv", "__rfloordiv__": "floordiv",
+             "__lt__": "lt", "__le__": "le", "__gt__": "gt", "__ge__": "ge", "__and__": "and", "__rand__": "and", "__or__": "or",
+             "__ror__": "or", "__xor__": "xor", "__rxor__": "xor", "__invert__": "invert", "__pos__": "pos", "__neg__": "neg"}
+    MIRROR = {"lt": "gt", "le": "ge", "gt": "lt", "ge": "le"}
+
+    def sweep(self):
+        """one cell of the table (class of the receiver) x (method of the infix table), drawn uniformly, so that every cell is
+           exercised in every run; the method is reached by name or through the Python operator that dispatches to it"""
+        rng = self.rng
+        cls = rng.choice("rFPV")
+        meth, ctor, pos, fam = rng.choice(self.SWEEP)
+        if rng.random() < 0.04:     # Object has Equals only
+            o, t = self.sym("O", rng.choice(["Loc", "Robot"]))
+            other = self.arg(t["base"])[0]
+            return self.emit(["Equals", o, other], BOOLI, ["m", "Equals", o, other])
+        lit = lambda a: a[0] in ("b", "i", "q", "f", "s")
+        if fam in ("bool", "nary", "not", "xor"):
+            recv, t = self.receiver(cls, "bool", any_result=True)
+            if fam == "not":
+                spelled = ["m", meth, recv] if meth == "Not" or rng.random() < 0.5 else ["un", "invert", recv]
+                return self.emit(["Not", recv], BOOLI, spelled)
+            if fam == "nary":
+                others = self.lists([self.arg("bool")[0] for _ in range(rng.choice([0, 1, 1, 2, 3]))])
+                return self.emit([ctor, recv] + others, t if not others else BOOLI, ["m", meth, recv] + others)
+            other = ["b", rng.choice("TF")] if pos == 1 and rng.random() < 0.7 else self.arg("bool")[0]
+            if pos == 0:
+                viaop = meth in self.OPSYM and rng.random() < 0.5
+                spelled = ["op", self.OPSYM[meth], recv, other] if viaop else ["m", meth, recv, other]
+            else:                   # reflected: reached by the operator only with a Python constant on the left
+                viaop = lit(other) and rng.random() < 0.6
+                spelled = ["op", self.OPSYM[meth], other, recv] if viaop else ["m", meth, recv, other]
+            if fam == "xor":
+                self.forms.append(spelled)
+                self.cmds.append(spelled)
+                self.ty.append(BOOLI)
+                return
+            return self.emit([ctor] + ([recv, other] if pos == 0 else [other, recv]), BOOLI, spelled)
+        # numeric families
+        base = rng.choice(["int", "real"]) if cls in "rF" else "int"
+        recv, t = self.receiver(cls, base)
+        if fam == "sign":
+            spelled = ["m", meth, recv] if rng.random() < 0.5 else ["un", self.OPSYM[meth], recv]
+            return self.emit([ctor, ["i", "0"], recv], I(t["base"], unb=t["unb"], mag=t["mag"] + 2), spelled)
+        other, to = self.small_num(nonzero=(ctor == "Div" and pos == 0))
+        infos = [t, to] if pos == 0 else [to, t]
+        if ctor in ("LT", "LE", "GT", "GE", "Equals"):
+            info = BOOLI
+        else:
+            info = I("real" if ctor == "Div" or any(x["base"] == "real" for x in infos) else "int",
+                     unb=any(x["unb"] for x in infos) or (ctor == "Div" and not infos[1]["const"]),
+                     mag=(sum(x["mag"] for x in infos) if ctor in ("Times", "Div") else max(x["mag"] for x in infos) + 2))
+        spelled = ["m", meth, recv, other]
+        opn = self.OPSYM.get(meth)
+        if opn is not None and pos == 0 and rng.random() < 0.5:
+            # recv <op> other; for a comparison with a constant also the mirrored spelling  other <mirror> recv
+            spelled = ["op", opn, recv, other]
+            if opn in self.MIRROR and lit(other) and rng.random() < 0.5:
+                spelled = ["op", self.MIRROR[opn], other, recv]
+        elif opn is not None and pos == 1 and lit(other) and rng.random() < 0.6:
+            spelled = ["op", opn, other, recv]
+        self.emit([ctor] + ([recv, other] if pos == 0 else [other, recv]), info, spelled)
+
+    def infix_only(self):
+        """constructions that exist on the infix tables only: the xor family and the unary sign"""
+        rng = self.rng
+        r = rng.random()
+        if r < 0.6:
+            x, _ = self.up_arg("bool")
+            q = rng.random()
+            if q < 0.35:
+                y = self.arg("bool")[0]
+                cmd = ["op", "xor", x, y] if rng.random() < 0.7 else ["m", "__xor__", x, y]
+            elif q < 0.6:       # the reflected method: a Python bool on the left
+                y = ["b", rng.choice("TF")]
+                cmd = ["op", "xor", y, x] if rng.random() < 0.6 else ["m", "__rxor__", x, y]
+            else:
+                ys = [self.arg("bool")[0] for _ in range(rng.choice([0, 1, 1, 2, 3]))]
+                cmd = ["m", "Xor", x] + self.lists(ys)
+            self.forms.append(cmd)
+            self.cmds.append(cmd)
+            self.ty.append(BOOLI)
+        else:
+            x, t = self.up_arg("num")
+            name = rng.choice(["Minus", "Plus"])
+            self.emit([name, ["i", "0"], x], I(t["base"], unb=t["unb"], mag=max(t["mag"], 1.0) + 2, const=t["const"]))
 
     # ---- argument choice ----
     def prev(self, pred):
@@ -502,7 +860,8 @@ class G:
 
     def num_sym(self):
         b = self.rng.choice(["int", "real"])
-        return (self.sym("P", b) if self.rng.random() < 0.2 else None) or self.sym("F", b)
+        r = self.rng.random()
+        return (self.sym("P", b) if r < 0.2 else (self.sym("V", b) if r < 0.3 else None)) or self.sym("F", b)
 
     def num_lit(self, max_mag=1e9, nonzero=False):
         rng = self.rng
@@ -539,7 +898,8 @@ class G:
             if want == "bool":
                 if r < 0.7:
                     return ["b", rng.choice("TF")], BOOLC
-                got = self.sym("F", "bool") if rng.random() < 0.7 else self.sym("P", "bool")
+                q = rng.random()
+                got = self.sym("F", "bool") if q < 0.7 else self.sym("P" if q < 0.88 else "V", "bool")
             elif want == "num":
                 got = self.num_lit(max_mag) if r < 0.8 else self.num_sym()
             else:
@@ -631,7 +991,7 @@ class G:
             t = table[k][1]
             self.emit([kind, k, str(rng.randint(0, 1))], I(BASE[t], unb=UNB.get(t, False), mag=4.0))
         elif r < 0.89:
-            vs = rng.sample(list(VARS), rng.randint(1, 3))
+            vs = rng.sample(QVARS, rng.randint(1, 3))
             self.emit([rng.choice(["Exists", "Forall"]), [[v, str(rng.randint(0, 1))] for v in vs], self.arg("bool")[0]], BOOLI)
         elif r < 0.93:
             name = rng.choice(["Always", "Sometime", "AtMostOnce", "SometimeBefore", "SometimeAfter"])
@@ -680,16 +1040,26 @@ class G:
         if not oks:
             return self.fresh()
         k = rng.choice(oks[-12:] if rng.random() < 0.5 else oks)
-        cmd, t = self.cmds[k], self.ty[k]
+        cmd, t = self.forms[k], self.ty[k]
         r = rng.random()
         ref = ["r", str(k)]
+        if cmd[0] in ("op", "m") and r < 0.4:   # an infix-only construction (xor family): verbatim, or by another spelling
+            if r < 0.2 and cmd[0] == "op" and cmd[2][0] != "b":
+                cmd = ["m", rng.choice(["__xor__", "Xor"]), cmd[2], cmd[3]]
+            self.forms.append(cmd)
+            self.cmds.append(cmd)
+            self.ty.append(t)
+            return
         if r < 0.4:
             return self.emit(list(cmd), t)
         if r < 0.5 and cmd[0] in ("GE", "GT", "LE", "LT") and len(cmd) == 3 and cmd[1][0] == "r" and cmd[2][0] == "r":
             return self.emit([{"GE": "LE", "LE": "GE", "GT": "LT", "LT": "GT"}[cmd[0]], cmd[2], cmd[1]], t)
         if t["base"] == "bool":
-            if r < 0.65:
-                return self.emit(["Not", ref], BOOLI)
+            if r < 0.65:            # negate it; half of the time negate the negation too (each by a random path)
+                self.emit(["Not", ref], BOOLI)
+                if rng.random() < 0.5:
+                    self.emit(["Not", ["r", str(len(self.cmds) - 1)]], BOOLI)
+                return
             if r < 0.8:
                 return self.emit([rng.choice(["And", "Or", "XOr"]), rng.choice([ref, ["L", ref]])], t)
             return self.emit([rng.choice(["And", "Or"])], BOOLC)
@@ -722,6 +1092,10 @@ class G:
                 self.repeat()
             elif r < 0.36:
                 self.spellings()
+            elif r < 0.40 and self.paths:
+                self.infix_only()
+            elif r < 0.52 and self.paths:
+                self.sweep()
             else:
                 self.fresh()
         return ["hist"] + self.cmds
@@ -743,6 +1117,59 @@ def cases(rng, tier):
 NOMINAL = {"And": "AND", "Or": "OR", "XOr": "OR", "Not": "NOT", "Plus": "PLUS", "Times": "TIMES", "GE": "GE", "GT": "GT"}
 
 
+M_NOMINAL = {"Not": "NOT", "__invert__": "NOT", "And": "AND", "__and__": "AND", "__rand__": "AND", "Or": "OR", "__or__": "OR",
+             "__ror__": "OR", "__add__": "PLUS", "__radd__": "PLUS", "__mul__": "TIMES", "__rmul__": "TIMES",
+             "__ge__": "GE", "__gt__": "GT"}
+OP_NOMINAL = {"invert": "NOT", "and": "AND", "or": "OR", "add": "PLUS", "mul": "TIMES", "ge": "GE", "gt": "GT"}
+
+
+def nominal(cmd):
+    """the operator a construction names, if it is one of those with a documented normalisation"""
+    if cmd[0] == "sc":
+        return nominal(cmd[1])
+    if cmd[0] in ("op", "un"):
+        return OP_NOMINAL.get(cmd[1])
+    if cmd[0] == "m":
+        return M_NOMINAL.get(cmd[1])
+    return NOMINAL.get(cmd[0])
+
+
+def path_kind(cmd):
+    if cmd[0] == "sc":
+        return "shortcut"
+    if cmd[0] == "op":
+        return "infix-reflected" if cmd[2][0] in ("b", "i", "q", "f", "s") else "infix"
+    if cmd[0] == "un":
+        return "prefix"
+    if cmd[0] == "m":
+        return "method-of-" + {"r": "FNode", "F": "Fluent", "P": "Parameter", "V": "Variable", "O": "Object"}.get(cmd[2][0], "?")
+    if cmd[0] == "call":
+        return "fluent-call"
+    return "manager"
+
+
+CLS = {"r": "FNode", "F": "Fluent", "P": "Parameter", "V": "Variable", "O": "Object"}
+FWD_METH = {"add": "__add__", "sub": "__sub__", "mul": "__mul__", "truediv": "__truediv__", "floordiv": "__floordiv__",
+            "lt": "__lt__", "le": "__le__", "gt": "__gt__", "ge": "__ge__", "and": "__and__", "or": "__or__", "xor": "__xor__"}
+RFL_METH = {"add": "__radd__", "sub": "__rsub__", "mul": "__rmul__", "truediv": "__rtruediv__", "floordiv": "__rfloordiv__",
+            "lt": "__gt__", "le": "__ge__", "gt": "__lt__", "ge": "__le__", "and": "__rand__", "or": "__ror__", "xor": "__rxor__"}
+
+
+def cell(cmd):
+    """(class of the receiver).(method of the infix table) that a step ends up in, if any"""
+    if cmd[0] == "m":
+        return CLS.get(cmd[2][0], "?") + "." + cmd[1]
+    if cmd[0] == "un":
+        return CLS.get(cmd[2][0], "?") + "." + {"invert": "__invert__", "neg": "__neg__", "pos": "__pos__"}[cmd[1]]
+    if cmd[0] == "op":
+        if cmd[2][0] in ("r", "F", "P", "V"):
+            return CLS[cmd[2][0]] + "." + FWD_METH[cmd[1]]
+        return CLS.get(cmd[3][0], "?") + "." + RFL_METH[cmd[1]]
+    if cmd[0] == "call":
+        return "Fluent.__call__"
+    return None
+
+
 def _steps(ans):
     return ans[0][1:] if isinstance(ans, list) and ans and ans[0] and ans[0][0] == "steps" else []
 
@@ -757,7 +1184,7 @@ def nontrivial(payload, ans):
         if k <= top:
             hit = True
         top = max(top, k)
-        if cmd[0] in NOMINAL and s[2] != NOMINAL[cmd[0]]:
+        if nominal(cmd) is not None and s[2] != nominal(cmd):
             normal = True
     return hit and normal
 
@@ -766,6 +1193,18 @@ def stats(payload, ans):
     steps = _steps(ans)
     tags = ["len<=12" if len(payload) - 1 <= 12 else ("len<=50" if len(payload) - 1 <= 50 else "len>50")]
     top, hits, norm, errs = 1, 0, 0, 0
+    kinds = [path_kind(cmd) for cmd in payload[1:]]
+    for kd in sorted(set(kinds)):
+        tags.append("path:" + kd)
+    for c in sorted(set(filter(None, map(cell, payload[1:])))):
+        tags.append("cell:" + c)
+    new = sum(1 for kd in kinds if kd != "manager")
+    tags.append("non-manager-path-steps:%d%%" % (10 * round(10 * new / max(1, len(kinds)))))
+    for cmd, s in zip(payload[1:], steps):
+        # a negation made by operator / method / shortcut that hit the double-negation rule
+        if s[0] == "ok" and nominal(cmd) == "NOT" and path_kind(cmd) != "manager" and s[2] != "NOT":
+            tags.append("double-negation-off-manager")
+            break
     for cmd, s in zip(payload[1:], steps):
         if s[0] != "ok":
             errs += 1
@@ -775,7 +1214,7 @@ def stats(payload, ans):
         if k <= top:
             hits += 1
         top = max(top, k)
-        if cmd[0] in NOMINAL and s[2] != NOMINAL[cmd[0]]:
+        if nominal(cmd) is not None and s[2] != nominal(cmd):
             norm += 1
     tags.append("memo-hit-steps:%d%%" % (10 * round(10 * hits / max(1, len(steps)))))
     tags.append("normalised-steps:%d%%" % (10 * round(10 * norm / max(1, len(steps)))))
@@ -818,13 +1257,22 @@ MANIFEST = {
                    "content returns the same node and leaves the manager unchanged, node <-> expression-tree is a bijection "
                    "(distinct nodes denote distinct expressions and have distinct ids), re-issuing any constructor call of a "
                    "history later returns the identical node and creates nothing, nodes never change, and one equation per "
-                   "documented normalisation. The model is tied to the code by a differential check on whole histories in one "
-                   "real environment (returned node, operator, children, payload per step; full table dump at the end) plus a "
-                   "direct oracle of the property on the real code (including a second pass that rebuilds every expression)."),
+                   "documented normalisation. Props/C16Paths.lean lifts all of it to EVERY public construction path (model "
+                   "Core/HashConsPaths.lean: the 30 methods of the infix tables of FNode/Fluent/Parameter/Variable, Object.Equals, "
+                   "CPython's forward/reflected operator dispatch, Fluent.__call__, the shortcuts functions): each path is proved "
+                   "equal to a call (the xor family: four calls) of the documented constructor, histories mixing the paths freely "
+                   "keep the invariant, an expression built by one path and again by another is the identical node, ~~x is x on "
+                   "every path, and no node Not(Not(x)) exists after any history (with a kernel-checked counterexample for a raw "
+                   "create_node). The model is tied to the code by a differential check on whole histories in one real environment "
+                   "in which every step carries the path by which it is built (returned node, operator, children, payload per "
+                   "step; full table dump at the end) plus a direct oracle of the property on the real code (documented "
+                   "expression per step whatever the path, pairwise identity, no Not(Not x) in the table, and a second pass "
+                   "that rebuilds every expression)."),
     "level_note": ("Trusted: Lean kernel; axioms propext, Classical.choice, Quot.sound at most; the correspondence harness. "
                    "Modelled not verified: CPython dict/tuple hashing and equality, fractions.Fraction, float.as_integer_ratio. "
+                   "CPython's choice between forward and reflected operator methods. "
                    "Out of scope: ill-typed constructions (C14/C15), writes to private attributes, Dot/Timing/Presence/"
-                   "InterpretedFunction nodes."),
+                   "InterpretedFunction nodes (and the infix table of InterpretedFunction objects)."),
     "technique": "Lean 4 proof over a hand-written model + model/code correspondence on construction histories",
     "design_ref": "DESIGN.md §5 C16",
 }
